@@ -252,6 +252,7 @@ type worker[P any] struct {
 	rootBytes  []byte
 	internal   string
 	extraEvals int64
+	curKey     string // the parameter set being evaluated (for abort markers)
 }
 
 func safeErr(f func() error) (err error, panicked bool, text string) {
@@ -302,6 +303,16 @@ func newWorker[P any](sp *spec[P], tier string) (w *worker[P]) {
 
 const blockDT = 5 * time.Second
 
+// fieldsOfKey: "a=x,b=y" -> "a+b" (the deviating fields of a parameter set, for signatures)
+func fieldsOfKey(key string) string {
+	var names []string
+	for _, kv := range strings.Split(key, ",") {
+		names = append(names, strings.SplitN(kv, "=", 2)[0])
+	}
+	sort.Strings(names)
+	return strings.Join(names, "+")
+}
+
 // runOp executes menu entry i on a fork of st, then two blocks.
 func (w *worker[P]) runOp(st *mc.State, i int) (res opResult) {
 	o := w.sp.menu[i]
@@ -319,7 +330,13 @@ func (w *worker[P]) runOp(st *mc.State, i int) (res opResult) {
 	if res.class == "skipped" {
 		return res
 	}
+	mark := func(phase string) {
+		mc.AbortMark(fmt.Sprintf("C16/%s/process-abort/%s/%s", w.sp.module, phase, fieldsOfKey(w.curKey)),
+			fmt.Sprintf("under the accepted parameter set {%s} the operation %s (%s) does not end in success or an ordinary rejection: the process dies while executing it", w.curKey, o.name, phase),
+			[]string{"set:" + w.curKey, "op:" + o.name})
+	}
 	if len(msgs) > 0 {
+		mark(o.msgType)
 		out := fk.Deliver(w.e, "op-"+o.name, msgs...)
 		res.class = out.Class()
 		switch {
@@ -332,6 +349,7 @@ func (w *worker[P]) runOp(st *mc.State, i int) (res opResult) {
 		res.class = "ok"
 	}
 	for b := 0; b < 2; b++ {
+		mark("block-after-" + o.msgType)
 		bo := fk.NextBlock(w.e, blockDT)
 		res.blockPanics = append(res.blockPanics, bo.Panics...)
 	}
@@ -342,6 +360,7 @@ func (w *worker[P]) runOp(st *mc.State, i int) (res opResult) {
 func (w *worker[P]) eval(s pset) *setResult {
 	sp := w.sp
 	key := sp.key(w.tier, s)
+	w.curKey = key
 	if r, ok := w.cache[key]; ok {
 		return r
 	}
